@@ -19,12 +19,22 @@ import (
 func init() {
 	fw.Register(&fw.Check{
 		ID: "C19", Level: "model_checking",
-		Rule: "(a) ALL first-segment strings of length 1..5 (quick) / 1..7 (thorough) over {_ % . space a 5 F é @} through the automatic tag-name function: one pass builds name -> segment and requires injectivity (a for-all-pairs statement) and, end to end for length <= 3, that the interaction carries exactly that tag; (b) documents: URL block (implicit / parenthesised) with URL-level Tags in {none, one, two} x two methods each with own Tags in {none, one, two} x protocol {http, json-rpc} x a path-bearing method that follows (hoisted out of the implicit block) x tags declared before / after use, with / without annotation and description x undeclared tag; oracle: own Tags, else the enclosing URL's, else the single automatic tag; tag entries and interactions reference each other mutually; title = annotation or name; undeclared => rejected; non-trivial = every document / every string with an escaped character; distinct = distinct documents and strings",
+		Rule: "(a) ALL first-segment strings of length 1..5 (quick) / 1..7 (thorough) over {_ % . space a 5 F é @} through the automatic tag-name function: one pass builds name -> segment and requires injectivity (a for-all-pairs statement) and, end to end for length <= 3, that the interaction carries exactly that tag; (b) documents: URL block (implicit / parenthesised) with URL-level Tags in {none, one, two} x two methods each with own Tags in {none, one, two} x protocol {http, json-rpc} x a path-bearing method that follows (hoisted out of the implicit block) x tags declared before / after use, with / without annotation and description x undeclared tag; oracle: own Tags, else the enclosing URL's, else the single automatic tag; tag entries and interactions reference each other mutually; title = annotation or name; undeclared => rejected; non-trivial = every document / every string with an escaped character; distinct = distinct documents and strings ; E-REFCAT (see C04) over the fixtures, the pool selections and every document the generators of C04 and C13 build: tags of every interaction = own Tags, else the enclosing URL's, else the automatic tag; tag entries = declared + automatic, mutual membership, titles; undeclared tag => rejected",
 		Run:  runC19, QuickCap: 8 * time.Minute, ThoroughCap: 40 * time.Minute,
 	})
 }
 
 func runC19(c *fw.Ctx) {
+	if refcatHook != nil {
+		refcatHook(c, "C19")
+		refcatCross(c, "C19", genC04, genC13)
+	}
+	c19Names(c)
+	genC19(c)
+}
+
+// c19Names: part (a), the automatic tag-name function.
+func c19Names(c *fw.Ctx) {
 	opt := drv.Options{FixedSeed: true}
 	// (a) automatic names
 	alpha := []string{"_", "%", ".", " ", "a", "5", "F", "é", "@"}
@@ -96,6 +106,11 @@ func runC19(c *fw.Ctx) {
 		c.Violate("tag-name-collision", "C19:collision-root", fmt.Sprintf("the root tag name %q collides with segment %q", n, names[n]), nil)
 	}
 
+}
+
+// genC19 is the document generator of C19 with its own judgement (or the tap's).
+func genC19(c *fw.Ctx) {
+	opt := drv.Options{FixedSeed: true}
 	// (b) documents
 	// every list of 0..3 names over the two declared tags, repetitions included (quick: the URL level
 	// takes the lists of length <= 2)
@@ -254,6 +269,10 @@ func runC19(c *fw.Ctx) {
 										c.Describe(label)
 										c.Distinct(text)
 										o := drv.RunMem("root.jst", text, opt)
+										if docTap != nil {
+											docTap(label, text, o)
+											continue
+										}
 										if o.Crashed() {
 											c.Count("skipped_crash", 1)
 											continue
